@@ -61,7 +61,7 @@ class Ctx:
         self.bf_seen = set()
         self.hits = 0
         # fault injection (C14): see run_call
-        self.fault_mode = None        # None | 'catch' | 'nocatch'
+        self.fault_mode = None        # None | 'catch' (at the call in progress) | 'catch_root' (by the root function) | 'nocatch'
         self.call_stack = []
         self.fault_call = None        # inv of the innermost generated call during which the fault fired ('<top>' if none)
         self.fault_handled = False
@@ -231,8 +231,18 @@ def run_block(ctx, b, inv, fname, args, stmts, obs, filename):
             if ctx.mode == 'real':
                 if os.path.lexists(filename):
                     ctx.inside_fail.append(('target present when the function writes', filename))
-                with open(filename, 'wb') as f:
-                    f.write(content)
+                from . import sched as _sched
+                if _sched.ACTIVE is not None and _sched.ACTIVE.managed():
+                    # under the scheduler the function writes its output in two steps with a scheduling point in
+                    # between, so that other threads can run while the file is half-written
+                    with open(filename, 'wb') as f:
+                        f.write(content[:len(content) // 2])
+                    _sched.hook('user.write', (filename,))
+                    with open(filename, 'ab') as f:
+                        f.write(content[len(content) // 2:])
+                else:
+                    with open(filename, 'wb') as f:
+                        f.write(content)
                 os.utime(filename, ns=(mt, mt))
                 ctx.written[filename] = content
             else:
@@ -305,12 +315,21 @@ def _run_call_inner(ctx, b, s, obs, op, path, fn, a, kw, catch, cmp, n0, dup, in
             ctx.fault_handled = True
             if op == 'bf' and ctx.mode == 'real':
                 ctx.calls.append((path, 'fault'))
-            if ctx.fault_mode == 'nocatch':
+            if ctx.fault_mode == 'nocatch' or (ctx.fault_mode == 'catch_root' and len(ctx.call_stack) > 1):
                 ctx.uncatchable = e
                 raise
             obs.append([op, fn, '!fault'])
             return
         if ctx.uncatchable is not None and e is ctx.uncatchable:
+            if ctx.fault_mode == 'catch_root' and len(ctx.call_stack) == 1:
+                # the exception passed through every nested function; the root build function catches it
+                if op == 'bf' and ctx.mode == 'real':
+                    ctx.calls.append((path, 'fault'))
+                ctx.uncatchable = None
+                obs.append([op, fn, '!fault'])
+                return
+            if op == 'bf' and ctx.mode == 'real':
+                ctx.calls.append((path, 'fault-passing-through'))      # the path was passed to build_file in this build
             raise
         if op == 'bf' and ctx.mode == 'real':
             ctx.calls.append((path, exc_class(e)))
